@@ -454,6 +454,7 @@ func Run(r *fw.Run) {
 	// independently, for sizes around and just above every power of two
 	c09.HugeLogs(r)
 	proofLengths(r)
+	craftedOutOfRange(r)
 }
 
 // proofLengths hands the checkers proofs of every length 0..200 (and a few far longer ones), made of
@@ -498,6 +499,91 @@ func proofLengths(r *fw.Run) {
 			}
 		}
 	}
+}
+
+// craftedOutOfRange builds, for out-of-range coordinates (size <= 0, index < 0, index >= size), audit paths
+// that are self-consistent: the claimed root IS the fold of the leaf with the path in the bit directions
+// of the index (both path orders, every length 0..64). Whatever arithmetic a checker does with such sizes,
+// it must refuse them; a path that folds to the root is the input on which a missing range check shows.
+func craftedOutOfRange(r *fw.Run) {
+	l := fw.NewLocal()
+	defer r.Merge(l)
+	var leaf tlog.Hash
+	leaf[0] = 0x4c
+	sib := func(i int) tlog.Hash { var h tlog.Hash; h[0], h[1] = 0x51, byte(i); return h }
+	const minInt, maxInt = -1 << 63, 1<<63 - 1
+	sizes := []int64{minInt, minInt + 1, minInt + 2, -(1 << 62), -(1 << 32), -2, -1, 0}
+	indexes := []int64{0, 1, 2, 5, 1 << 31, 1<<62 - 1, 1 << 62, maxInt - 1, maxInt, -1, minInt}
+	n := 0
+	for _, t := range sizes {
+		for _, idx := range indexes {
+			for L := 0; L <= 64; L++ {
+				for _, order := range []string{"leaf-up", "root-down"} {
+					p := make([]tlog.Hash, L)
+					for i := range p {
+						p[i] = sib(i)
+					}
+					// fold from the leaf upwards along the bits of idx
+					h := leaf
+					for lvl := 0; lvl < L; lvl++ {
+						s := p[lvl]
+						if order == "root-down" {
+							s = p[L-1-lvl]
+						}
+						if uint64(idx)>>uint(lvl)&1 == 0 {
+							h = tlog.NodeHash(h, s)
+						} else {
+							h = tlog.NodeHash(s, h)
+						}
+					}
+					n++
+					l.States++
+					l.Execs++
+					l.Transitions++
+					var err error
+					pan := ""
+					func() {
+						defer func() {
+							if e := recover(); e != nil {
+								pan = fmt.Sprint(e)
+							}
+						}()
+						err = tlog.CheckRecord(tlog.RecordProof(p), t, h, idx, leaf)
+					}()
+					if pan != "" || err == nil {
+						r.Violation(fmt.Sprintf("crafted:%d:%d:%d:%s", t, idx, L, order), fmt.Sprintf("CheckRecord(size %d, index %d) with a %d-hash path that folds to the claimed root (%s): err=%v panic=%q; a size <= 0 or an index outside the tree must be refused", t, idx, L, order, err, pan), mk("record", 0, 0, p, t, h, idx, leaf, "crafted path for out-of-range coordinates"))
+					}
+				}
+			}
+		}
+	}
+	// in-range sizes with an index at or beyond the size, same construction
+	for _, t := range []int64{1, 2, 3, 8, 1 << 32, 1 << 62, maxInt} {
+		for _, idx := range []int64{t, t + 1, maxInt, -1, minInt} {
+			if idx >= 0 && idx < t {
+				continue
+			}
+			for L := 0; L <= 64; L++ {
+				p := make([]tlog.Hash, L)
+				h := leaf
+				for lvl := 0; lvl < L; lvl++ {
+					p[lvl] = sib(lvl)
+					if uint64(idx)>>uint(lvl)&1 == 0 {
+						h = tlog.NodeHash(h, p[lvl])
+					} else {
+						h = tlog.NodeHash(p[lvl], h)
+					}
+				}
+				l.States++
+				l.Execs++
+				msg, _ := agree("record", p, t, h, idx, leaf)
+				if msg != "" {
+					r.Violation(fmt.Sprintf("crafted-range:%d:%d:%d", t, idx, L), msg, mk("record", 0, 0, p, t, h, idx, leaf, "crafted path, index outside the tree"))
+				}
+			}
+		}
+	}
+	r.Bounds["crafted_out_of_range_paths"] = n
 }
 
 // sentinelWorld is a second closed world built around the zero hash: base hashes {zero, a, b}, every
